@@ -24,10 +24,12 @@ def make_bundle(plen, seed):
 class Agent(object):
     def __init__(self, host, mtu=None, listen_port=None, node_id='dtn://udp/'):
         self.host = host
+        self.name = node_id
         self.ctx = simloop.Context(host)
         cfg = udpcl.config.Config(node_id=node_id, mtu_default=mtu)
         self.config = cfg
         simudp.NET.current_host = host
+        simudp.NET.current_owner = self.name
         with simloop.entered(self.ctx):
             self.agent = uagent.Agent(cfg)
             if listen_port:
@@ -35,10 +37,12 @@ class Agent(object):
 
     def call(self, member, *args):
         simudp.NET.current_host = self.host
+        simudp.NET.current_owner = self.name
         return tw.dbuscall(self.ctx, self.agent, member, *args)
 
     def iterate(self):
         simudp.NET.current_host = self.host
+        simudp.NET.current_owner = self.name
         return self.ctx.iterate()
 
     def settle(self, limit=200):
@@ -92,7 +96,7 @@ def cases(draw):
         plen = draw(st.one_of(st.sampled_from(LENGTHS), st.integers(0, 1200)))
         if mtu is not None and draw(st.booleans()):
             plen = max(0, mtu + draw(st.sampled_from([-60, -50, -45, -40, -1, 0, 1, 100])))
-        send = {'plen': plen, 'seed': draw(st.integers(0, 99)), 'peer': draw(st.sampled_from([1, 1, 2]))}
+        send = {'plen': plen, 'seed': draw(st.integers(0, 99)), 'peer': draw(st.sampled_from([1, 1, 2, 3]))}
         if mtu is not None and draw(st.booleans()):
             # total encoded length placed exactly around the MTU
             send['rel'] = draw(st.sampled_from([-2, -1, 0, 1, 2, 3]))
@@ -129,7 +133,9 @@ def execute(case, out):
     reset()
     mtu = case['mtu']
     recv = Agent(RECV[0], listen_port=RECV[1], node_id='dtn://receiver/')
-    senders = {1: Agent('10.0.0.1', mtu=mtu, node_id='dtn://s1/'), 2: Agent('10.0.0.2', mtu=mtu, node_id='dtn://s2/')}
+    # sender 3 is a second agent on the host of sender 1 (another source port, its own transfer numbering from 0)
+    senders = {1: Agent('10.0.0.1', mtu=mtu, node_id='dtn://s1/'), 2: Agent('10.0.0.2', mtu=mtu, node_id='dtn://s2/'),
+               3: Agent('10.0.0.1', mtu=mtu, node_id='dtn://s3/')}
     originals = []        # (peer, bid, data)
     for idx, send in enumerate(case['sends']):
         plen = int(send['plen'])
@@ -150,6 +156,7 @@ def execute(case, out):
         poll_cfg = udpcl.config.PollConfig(address=RECV[0], port=RECV[1], interval_ms=60000)
         ag = senders[1]
         simudp.NET.current_host = ag.host
+        simudp.NET.current_owner = ag.name
         with simloop.entered(ag.ctx):
             ag.agent._poll(poll_cfg, False)
     done = run_senders(list(senders.values()))
@@ -162,8 +169,7 @@ def execute(case, out):
         if tw.CallError and hasattr(bid, 'exc'):
             out.fail('send-call-error', 'send_bundle_data raised %r' % (bid,))
             continue
-        host = senders[peer].host
-        mine = [d for d in net.sent_log if d['src'][0] == host]
+        mine = [d for d in net.sent_log if d.get('owner') == senders[peer].name]
         segs = []
         whole = []
         for dg in mine:
